@@ -1,13 +1,170 @@
-"""C17 - A dry run generates everything and executes nothing
+"""C17 - A dry run generates everything and executes nothing.
 
-Execution-graph correspondence (real ExecutionGraph driven by the scripted
-scheduler vs Model/Exec.lean, state compared after every operation) and the
-C17 monitor of harness/execsim.py evaluated on the real traces."""
+(1) execution-graph correspondence and the C17 monitor on scripted scenarios
+    (dry runs among them);
+(2) dry-vs-real differential at conductor level: every generated study
+    (parameterised, +-hashws, throttle 0/1/2, restart commands) is run through the
+    real `Conductor.monitor_study` once with --dry and the real adapter, and once
+    for real with the same adapter's script generation but a scripted all-success
+    scheduler; compared: calls received by the adapter (none in the dry run),
+    the directory tree and the byte content of every script, status.csv (all
+    DRYRUN), the returned verdict (FINISHED) and termination."""
+import os
+
 import execprop
+import expprop
+import scripted as S
+import studysim as SS
+from corr import Case, compare, judge, account
 
 LEVEL = "proof"
-RULE = execprop.RULE
+RULE = execprop.RULE + ("; plus generated studies (as C08) x adapter in {local, slurm, lsf} x hashws x "
+                        "throttle in {0,1,2}: dry run vs real run with an all-success scripted scheduler")
+
+
+class Stop(Exception):
+    pass
+
+
+def _tree(root):
+    files, dirs = {}, set()
+    for d, ds, fs in os.walk(root):
+        rel = os.path.relpath(d, root)
+        if rel.split(os.sep)[0] in ("logs", "meta"):
+            continue
+        dirs.add(rel)
+        for f in fs:
+            if f.endswith(".sh"):
+                files[os.path.join(rel, f)] = open(os.path.join(d, f)).read().replace(root, "<ROOT>")
+    return dirs, files
+
+
+def _run_conductor(study, batch, calls):
+    import maestrowf.conductor as cmod
+    from maestrowf.conductor import Conductor
+    n = [0]
+
+    def sleep(_t):
+        n[0] += 1
+        if n[0] > 60:
+            raise Stop()
+    saved = cmod.sleep
+    cmod.sleep = sleep
+    try:
+        c = Conductor(study)
+        c.initialize(batch, 0)
+        try:
+            ret = c.monitor_study().name
+        except Stop:
+            ret = "NONTERMINATION"
+        finally:
+            c.cleanup()
+        return ret, c._exec_dag
+    finally:
+        cmod.sleep = saved
+
+
+def batch_of(which):
+    if which == "local":
+        return {"type": "local"}
+    if which == "slurm":
+        return {"type": "slurm", "host": "h", "bank": "b", "queue": "q"}
+    return {"type": "lsf", "host": "h", "bank": "b", "queue": "q", "nodes": "1"}
+
+
+def dry_vs_real(ctx, k):
+    from maestrowf.interfaces import ScriptAdapterFactory
+    from maestrowf.conductor import Conductor
+    rng = ctx.rng
+    root_d = os.path.join(ctx.scratch, "dv", "d%d" % k)
+    root_r = os.path.join(ctx.scratch, "dv", "r%d" % k)
+    spec = SS.gen_spec(rng, root_d, adversarial=False, dep_dir=None)
+    # resource keys are C15's subject: keep the steps schedulable without surprises
+    for s in spec["study"]:
+        for key in ("nodes", "procs", "walltime"):
+            s["run"].pop(key, None)
+    which = rng.choice(["local", "local", "slurm", "lsf"])
+    if which != "local":
+        for s in spec["study"]:
+            if rng.random() < 0.6:
+                s["run"]["nodes"] = 1
+                s["run"]["procs"] = 1
+                s["run"]["walltime"] = "00:10:00"
+    hash_ws = rng.random() < 0.4
+    throttle = rng.choice([0, 1, 2])
+    rlimit = rng.choice([0, 1, 2])
+    S.uninstall()
+    real_cls = ScriptAdapterFactory.factories[which]
+    calls = []
+    counting = S.make_counting(real_cls, calls)
+    scripted = S.make_scripted(real_cls, calls)
+    mon = []
+    try:
+        try:
+            _y, study_d = SS.load_study(spec, root_d, hash_ws=hash_ws, rlimit=rlimit, throttle=throttle, dry=True)
+        except Exception:  # noqa
+            return None
+        ScriptAdapterFactory.factories[which] = counting
+        ScriptAdapterFactory.factories["local"] = counting if which == "local" else S.make_counting(
+            S._saved_local, calls)
+        try:
+            ret_d, dag_d = _run_conductor(study_d, batch_of(which), calls)
+        except Exception as e:  # noqa  (staging errors such as workspace-before-generated: not C17)
+            return None
+        calls_d = list(calls)
+        del calls[:]
+        spec_r = dict(spec)
+        spec_r["env"] = {k_: dict(v) if isinstance(v, dict) else v for k_, v in spec["env"].items()}
+        spec_r["env"]["variables"]["OUTPUT_PATH"] = root_r
+        _y, study_r = SS.load_study(spec_r, root_r, hash_ws=hash_ws, rlimit=rlimit, throttle=throttle, dry=False)
+        ScriptAdapterFactory.factories[which] = scripted
+        ScriptAdapterFactory.factories["local"] = scripted if which == "local" else S.make_scripted(
+            S._saved_local, calls)
+        ret_r, dag_r = _run_conductor(study_r, batch_of(which), calls)
+    finally:
+        ScriptAdapterFactory.factories[which] = real_cls
+        ScriptAdapterFactory.factories["local"] = S._saved_local
+    side = [c for c in calls_d if c[0] in ("submit", "check_jobs", "cancel_jobs")]
+    if side:
+        mon.append(("no-side-effects", "the dry run called the adapter: %s" % side[:4]))
+    if ret_d != "FINISHED":
+        mon.append(("terminates-successfully", "the dry run returned %s (hashws=%s throttle=%d adapter=%s)"
+                    % (ret_d, hash_ws, throttle, which)))
+    states = {k_: r.status.name for k_, r in dag_d.values.items() if k_ != "_source"}
+    if any(v != "DRYRUN" for v in states.values()):
+        mon.append(("all-dryrun", "after the dry run: %s" % {k_: v for k_, v in states.items() if v != "DRYRUN"}))
+    table = Conductor.get_status(root_d)
+    if table and any(s != "DRYRUN" for s in table.get("State", [])):
+        mon.append(("all-dryrun", "status.csv after the dry run: %s" % table.get("State")))
+    if ret_r == "FINISHED":
+        dd, fd = _tree(root_d)
+        dr, fr = _tree(root_r)
+        if dd != dr:
+            mon.append(("all-generated", "directories differ: only dry %s, only real %s"
+                        % (sorted(dd - dr)[:4], sorted(dr - dd)[:4])))
+        elif fd != fr:
+            diff = [p for p in set(fd) | set(fr) if fd.get(p) != fr.get(p)]
+            mon.append(("all-generated", "scripts differ from the real run: %s" % sorted(diff)[:4]))
+    data = {"kind": "dry-vs-real", "spec": spec, "adapter": which, "hash_ws": hash_ws, "throttle": throttle,
+            "dry_return": ret_d, "real_return": ret_r}
+    return Case(data, [], [], mon[:4], bool(spec.get("global.parameters")))
 
 
 def run(ctx, escalated=False):
-    execprop.run(ctx, "C17", escalated)
+    quick = ctx.tier == "quick" and not escalated
+    cases = execprop.run(ctx, "C17", escalated, finish=False)
+    n = 120 if quick else 3000
+    extra = []
+    for k in range(n):
+        c = dry_vs_real(ctx, k)
+        if c is not None:
+            extra.append(c)
+            ctx.count("dry-vs-real:%s" % c.data["adapter"])
+        if k % 40 == 39:
+            import shutil
+            shutil.rmtree(os.path.join(ctx.scratch, "dv"), ignore_errors=True)
+    S.install()
+    cases = cases + extra
+    diffs = compare([c for c in cases if c.lines])
+    account(ctx, extra)
+    judge(ctx, cases, diffs, "execution-graph+dry-vs-real", shrink=execprop.shrink_factory(ctx, "C17"))
